@@ -291,15 +291,90 @@ pub fn run_y(line: &str) -> String {
         Some(i) => i,
         None => return "bad-case".to_string(),
     };
-    let seq_tail = sequential_tail(&fmt, &input, cap);
-    let mb = max_batch(&fmt, &input, cap);
+    let seq_tail = sequential_tail(&fmt[..2], &input, cap);
+    let mb = max_batch(&fmt[..2], &input, cap);
     OUT_CREATED.store(0, std::sync::atomic::Ordering::SeqCst);
     let (tx, rx) = mpsc::channel();
     std::thread::spawn(move || {
         let r = std::panic::catch_unwind(std::panic::AssertUnwindSafe(|| {
             let mut seen: Vec<String> = vec![];
             let mut count = 0usize;
-            if fmt == "fa" {
+            if fmt == "fa2" || fmt == "fq2" {
+                // the set-level API: `read_parallel` with a `ReusableReader` (as in the crate's documentation)
+                let mut tail = "END".to_string();
+                if fmt == "fa2" {
+                    use fasta::Record;
+                    let rdr = parallel::ReusableReader::new(fasta::Reader::with_capacity(std::io::Cursor::new(input), cap));
+                    parallel::read_parallel(
+                        rdr,
+                        nt,
+                        q,
+                        |d: &mut (fasta::RecordSet, Vec<u64>)| {
+                            d.1.clear();
+                            for r in &d.0 {
+                                d.1.push(rec_out(r.head(), r.owned_seq().len()));
+                            }
+                        },
+                        |rsets| {
+                            'outer: while let Some(res) = rsets.next() {
+                                match res {
+                                    Err(e) => {
+                                        tail = format!("E:{}", hex(e.to_string().as_bytes()));
+                                        break;
+                                    }
+                                    Ok((d, ())) => {
+                                        for (r, out) in d.0.into_iter().zip(&d.1) {
+                                            let o = r.to_owned_record();
+                                            seen.push(format!("h={}:s={}:o={}", hex(&o.head), hex(&o.seq), if *out == rec_out(&o.head, o.seq.len()) { 1 } else { 0 }));
+                                            count += 1;
+                                            if stop == Some(count) {
+                                                tail = "STOP".to_string();
+                                                break 'outer;
+                                            }
+                                        }
+                                    }
+                                }
+                            }
+                        },
+                    );
+                } else {
+                    use fastq::Record;
+                    let rdr = parallel::ReusableReader::new(fastq::Reader::with_capacity(std::io::Cursor::new(input), cap));
+                    parallel::read_parallel(
+                        rdr,
+                        nt,
+                        q,
+                        |d: &mut (fastq::RecordSet, Vec<u64>)| {
+                            d.1.clear();
+                            for r in &d.0 {
+                                d.1.push(rec_out(r.head(), r.seq().len()));
+                            }
+                        },
+                        |rsets| {
+                            'outer: while let Some(res) = rsets.next() {
+                                match res {
+                                    Err(e) => {
+                                        tail = format!("E:{}", hex(e.to_string().as_bytes()));
+                                        break;
+                                    }
+                                    Ok((d, ())) => {
+                                        for (r, out) in d.0.into_iter().zip(&d.1) {
+                                            let o = r.to_owned_record();
+                                            seen.push(format!("h={}:s={}:q={}:o={}", hex(&o.head), hex(&o.seq), hex(&o.qual), if *out == rec_out(&o.head, o.seq.len()) { 1 } else { 0 }));
+                                            count += 1;
+                                            if stop == Some(count) {
+                                                tail = "STOP".to_string();
+                                                break 'outer;
+                                            }
+                                        }
+                                    }
+                                }
+                            }
+                        },
+                    );
+                }
+                format!("{} {}", if seen.is_empty() { "-".to_string() } else { seen.join("/") }, tail)
+            } else if fmt == "fa" {
                 use fasta::Record;
                 let rdr = fasta::Reader::with_capacity(std::io::Cursor::new(input), cap);
                 let res = parallel::parallel_fasta(
